@@ -42,6 +42,28 @@ pub fn valid_val_stub(s: &ValuePieceSize) -> bool {
     assert!(spec::is_slot_size_lf(s.as_value()) || s.as_value() > 896, "value slot size is not a documented class");
     true
 }
+/// For the `small` harnesses (every slot <= 256 bytes, every length <= 250) the first-fit search of
+/// the large free list is unreachable.  CBMC would still unroll its loop on that infeasible path
+/// (half of the cost of a write harness); this stand-in turns "unreachable" into a checked
+/// assertion instead: if the large path could be entered, the harness fails.
+pub fn pop_large_unreachable<T: Copy + PartialEq + PartialOrd>(_f: &mut VarFile, _s: PieceSize<T>, first: PieceOffset<T>) -> std::io::Result<PieceOffset<T>> {
+    assert!(false, "MODEL-LIMIT: large free list entered in a harness restricted to small slots");
+    Ok(first)
+}
+macro_rules! rproof_small {
+    ($name:ident, $body:expr) => {
+        #[kani::proof]
+        #[kani::unwind(6)]
+        #[kani::stub(crate::filedb::inner::piece::PieceMgr::roundup, roundup_stub)]
+        #[kani::stub(crate::filedb::inner::piece::PieceMgr::free_piece_list_offset_of_header, list_head_stub)]
+        #[kani::stub(crate::filedb::inner::semtype::Size::<crate::filedb::inner::semtype::Piece<crate::filedb::inner::semtype::Key>>::is_valid_key, valid_key_stub)]
+        #[kani::stub(crate::filedb::inner::semtype::Size::<crate::filedb::inner::semtype::Piece<crate::filedb::inner::semtype::Value>>::is_valid_value, valid_val_stub)]
+        #[kani::stub(crate::filedb::inner::vfile::VarFile::pop_free_piece_list_large, pop_large_unreachable)]
+        fn $name() {
+            $body;
+        }
+    };
+}
 macro_rules! rproof {
     ($name:ident, $body:expr) => {
         #[kani::proof]
@@ -607,9 +629,9 @@ rproof!(r_val_rewrite_bfree, val_write(false, true, false));
 rproof!(r_val_rewrite_bused, val_write(false, false, false));
 rproof!(r_val_new_bfree, val_write(true, true, false));
 rproof!(r_val_new_bused, val_write(true, false, false));
-rproof!(r_val_rewrite_small_bfree, val_write_sz(false, true, false, true));
-rproof!(r_val_rewrite_small_bused, val_write_sz(false, false, false, true));
-rproof!(r_val_new_small_bfree, val_write_sz(true, true, false, true));
+rproof_small!(r_val_rewrite_small_bfree, val_write_sz(false, true, false, true));
+rproof_small!(r_val_rewrite_small_bused, val_write_sz(false, false, false, true));
+rproof_small!(r_val_new_small_bfree, val_write_sz(true, true, false, true));
 // the same with a third, used slot C behind B (thorough tier)
 rproof!(r_val_rewrite_bfree_c, val_write(false, true, true));
 rproof!(r_val_rewrite_bused_c, val_write(false, false, true));
@@ -700,14 +722,27 @@ fn key_of(len: usize, b: &[u8; BMAX]) -> DbBytes {
 /// one real KeyFile::write_piece / add_key_piece on an image A (used key record), B (free or
 /// used), C (used neighbour); symbolic key length, value offset and chain link
 fn key_write(is_new: bool, b_is_free: bool) {
+    key_write_sz(is_new, b_is_free, false)
+}
+fn key_write_sz(is_new: bool, b_is_free: bool, small: bool) {
     set_key_file(true);
     let mut f = VarFile::model(kp::piece_mgr());
-    let sa = any_slot_size();
-    let sb = any_slot_size();
-    let sc = any_slot_size();
+    let lmax: u32 = if small { 230 } else { 300 };
+    let pick = || {
+        if small {
+            let i: usize = kani::any();
+            kani::assume(i < 10);
+            spec::CLASSES[i]
+        } else {
+            any_slot_size()
+        }
+    };
+    let sa = pick();
+    let sb = pick();
+    let sc = pick();
     let la: u32 = kani::any();
     let lc: u32 = kani::any();
-    kani::assume(la <= 300 && lc <= 300);
+    kani::assume(la <= lmax && lc <= lmax);
     let ka: [u8; BMAX] = kani::any();
     let aligned = || {
         let o: u64 = kani::any();
@@ -732,7 +767,7 @@ fn key_write(is_new: bool, b_is_free: bool) {
     // the record written: for a rewrite the key is the stored one (the crate rewrites what it read)
     let (kl, kb) = if is_new {
         let l: usize = kani::any();
-        kani::assume(l <= 300);
+        kani::assume(l <= lmax as usize);
         (l, kani::any::<[u8; BMAX]>())
     } else {
         (la as usize, ka)
@@ -788,6 +823,8 @@ fn key_write(is_new: bool, b_is_free: bool) {
     core::mem::forget(out);
     core::mem::forget(kfile);
 }
+rproof_small!(r_key_rewrite_small_bfree, key_write_sz(false, true, true));
+rproof_small!(r_key_new_small_bfree, key_write_sz(true, true, true));
 rproof!(r_key_rewrite_bfree, key_write(false, true));
 rproof!(r_key_rewrite_bused, key_write(false, false));
 rproof!(r_key_new_bfree, key_write(true, true));
